@@ -224,13 +224,15 @@ def run(chk):
         sel = sib.terms(name, jc)["SEL"]["nf"]
         chk.ob("R5", sib.cfgs[name].module, sib.cfgs[name].func, f"{name} Join: visible = {S.show(sel)}", sel == ("cat", S.IN, S.RIN),
                f"{name}: visible columns after a join are {S.show(sel)}, documented: left columns then right columns")  # fmt: skip
-    df = " ".join(norm(st) for st, _ in flat(Slicer(sym, cache, sib.cfgs["cache"].subject, jc).slice(sib.cfgs["cache"].func.body)))
-    jitems = Slicer(sym, cache, sib.cfgs["cache"].subject, jc).slice(sib.cfgs["cache"].func.body)
-    dfa = [st for st, _ in flat(jitems) if isinstance(st, ast.Assign) and any(norm(t).endswith(".derived_from") for t in st.targets)]
-    # `a | b`, `a.union(b)`, `{*a, *b}` ... : the assigned value mentions the derivation sets of both inputs
-    both_inputs = any("self.derived_from" in norm(a.value) and "right_cache.derived_from" in norm(a.value) for a in dfa)
-    chk.ob("R5", cache, sib.cfgs["cache"].func, "cache Join: derived_from = left | right", both_inputs,
-           "the join result is not derived from both inputs: references to the right table's columns would be rejected / self-joins not detected")  # fmt: skip
+    from ..dispatch import try_slice as _try_slice
+
+    jitems = _try_slice(chk, "R5", Slicer(sym, cache, sib.cfgs["cache"].subject, jc), sib.cfgs["cache"].func.body)
+    if jitems is not None:
+        dfa = [st for st, _ in flat(jitems) if isinstance(st, ast.Assign) and any(norm(t).endswith(".derived_from") for t in st.targets)]
+        # `a | b`, `a.union(b)`, `{*a, *b}` ... : the assigned value mentions the derivation sets of both inputs
+        both_inputs = any("self.derived_from" in norm(a.value) and "right_cache.derived_from" in norm(a.value) for a in dfa)
+        chk.ob("R5", cache, sib.cfgs["cache"].func, "cache Join: derived_from = left | right", both_inputs,
+               "the join result is not derived from both inputs: references to the right table's columns would be rejected / self-joins not detected")  # fmt: skip
 
     _join_scenarios(chk, model_of(chk))
 
